@@ -1,15 +1,392 @@
 /-
-  Driver engine stub (Multi): replaced by the real engine; see notes/AGENT_BRIEF.md.
+  Driver engine for C16 (several hosts). Per operation line the engine
+  (1) evaluates the C16 predicates of Model/MultiPred.lean on the implementation's observed
+      values (PROPFAIL C16 ..., or KNOWN C16 F19 ... inside the region of the open finding),
+  (2) recomputes the outcome with the L1 model of Model/Multi.lean, random draws taken from the
+      observation and checked for validity, and compares exactly (MISMATCH).
+  Protocol (landscape 1 x 2; every host lists both cells on every line):
+    mh.arrival <name> => <ok|err:..> <current value>
+    mh.begin <hosts> <land|infect> <cfg stochastic> <cfg pEst> <weather 0|1>
+    mh.host <k> <SI|SEI> <stochastic> <pEst> <reproductive rate>
+    mh.readpht <row>.. => <ok|err:..> | <row>..         row = sus,rate,lag
+    mh.mkpht <n> <rate> <lag> => ok | <row>..
+    mh.nopht
+    mh.readcomp <row>.. => <ok|err:..> <complete 0|1> | <row>..      input row = p,..,p,c  stored row = bits;c
+    mh.nocomp
+    mh.state => | <cellA> <cellB> | <cellA> <cellB> ...             (one segment per host)
+    mh.single <cell> <u> <N> <w|none> => <multi ret> <multi calls> <bare ret> <bare calls> | cA cB | cA cB
+    mh.dispto <cell> <v> <u> <N> <w|none> => <ret> <calls> <pick|-> | state
+    mh.pestsfrom|mh.peststo <cell> <count> => <ret> | state
+    mh.dispfrom <cell> <w|none> => <ret> | state
+    mh.sums <cell> => <infected> <total> | state
+    mh.competency <cell> => <value|err>.. | state
+    mh.mortality <cell> => ok|err | state
+    mh.move <from> <to> <count> => <ret> | state
 -/
 import PopsModel.Driver.Util
+import PopsModel.Driver.HostEng
+import PopsModel.Model.MultiPred
 namespace Pops.Driver.MultiEng
 open Pops Pops.Driver
 
 structure State where
-  dummy : Unit := ()
+  nHosts : Nat := 0
+  cfg : MultiCfg := { arrival := .infect, sto := true, pEst := 0 }
+  useWeather : Bool := false
+  ps : List HostParams := []
+  pht : Option PestHostTable := none
+  comp : Option CompetencyTable := none
+  hosts : List (List Cell) := []      -- per host: its cells
 deriving Inhabited
 
-def handle (st : State) (_cmd : String) (_inp _obs : List String) : State × String :=
-  (st, "BADLINE")
+def cellsAt (hosts : List (List Cell)) (a : Nat) : List Cell := hosts.map fun cs => cs[a]!
+
+/-- `-` or a comma-separated list of rationals. -/
+def ratRow? (tok : String) : Option (List Rat) :=
+  if tok = "-" then some [] else (tok.splitOn ",").mapM parseRat?
+
+def phtRow? (tok : String) : Option PestHostRow :=
+  match ratRow? tok with
+  | some [a, b, c] => some { sus := a, rate := b, lag := c }
+  | _ => none
+
+def compRow? (tok : String) : Option CompRow :=
+  match tok.splitOn ";" with
+  | [bits, c] => do
+    let v ← parseRat? c
+    some { presence := if bits = "-" then [] else parseBits bits, competency := v }
+  | _ => none
+
+structure Obs where
+  ret : List String
+  hosts : List (List Cell)
+
+def obs? (toks : List String) : Option Obs :=
+  match HostEng.segments toks with
+  | ret :: segs => do
+    let hosts ← segs.mapM fun seg => seg.mapM HostEng.cell?
+    some { ret, hosts }
+  | [] => none
+
+def showCells (cs : List Cell) : String := " ".intercalate (cs.map HostEng.showCell)
+
+def errOf? (s : String) : Option String := if s.startsWith "err:" then some s else none
+
+def exceptTok {α : Type} (f : α → String) : Except ErrKind α → String
+  | .ok v => f v
+  | .error e => errTok e
+
+def envOf (st : State) (n : Int) (w : String) : MEnv :=
+  { n := n, w := if st.useWeather then parseRat? w else none, pht := st.pht, comp := st.comp }
+
+/-- All hosts agree with `pre` at every cell other than `a`. -/
+def othersSame (pre post : List (List Cell)) (a : Nat) : Bool :=
+  pre.length == post.length &&
+  (List.zip pre post).all fun (x, y) => x.length == y.length &&
+    (List.range x.length).all fun k => k == a || x[k]! == y[k]!
+
+def finish (st : State) (o : Obs) (verdict : String) : State × String := ({ st with hosts := o.hosts }, verdict)
+
+/-- Weights of all hosts when every one of them is computable and inside [0, 1]. -/
+def weightsInDomain (env : MEnv) (cells : List Cell) : Option (List Rat) :=
+  let okEnv := (List.range cells.length).all fun h => match env.cellEnv h with | .ok _ => true | .error _ => false
+  let ws := hostWeights env cells
+  if okEnv && decide (env.n > 0) && ws.all (fun x => decide (0 ≤ x) && decide (x ≤ 1)) then some ws else none
+
+def handle (st : State) (cmd : String) (inp obsToks : List String) : State × String :=
+  match cmd, inp with
+  | "mh.arrival", [name] =>
+    match obsToks with
+    | [res, cur] =>
+      match arrivalFromString name with
+      | .ok _ => (st, if res = "ok" && cur = name then "ok" else
+                        if res ≠ "ok" then s!"PROPFAIL C16 arrival_behaviour_rejected {name}" else "MISMATCH mh.arrival value")
+      | .error e => (st, if res = errTok e && cur = "infect" then "ok" else
+                           if res = "ok" then s!"PROPFAIL C16 unknown_arrival_behaviour_accepted {name}" else s!"MISMATCH mh.arrival model={errTok e}")
+    | _ => (st, "BADLINE")
+  | "mh.begin", [h, arr, sto, pEst, w] =>
+    match parseNat? h, arrivalFromString arr, parseRat? pEst with
+    | some h, .ok arr, some pEst =>
+      ({ nHosts := h, cfg := { arrival := arr, sto := sto = "1", pEst := pEst }, useWeather := w = "1" }, "ok")
+    | _, _, _ => (st, "BADLINE")
+  | "mh.host", [k, mt, sto, pEst, rr] =>
+    match parseNat? k, modelTypeFromString mt, parseRat? pEst, parseRat? rr with
+    | some k, .ok mt, some pEst, some rr =>
+      if k ≠ st.ps.length then (st, "BADLINE host order")
+      else ({ st with ps := st.ps ++ [{ mt := mt, sto := sto = "1", pEst := pEst, rr := rr }] }, "ok")
+    | _, _, _, _ => (st, "BADLINE")
+  | "mh.nopht", [] => ({ st with pht := none }, "ok")
+  | "mh.nocomp", [] => ({ st with comp := none }, "ok")
+  | "mh.readpht", rowToks =>
+    match rowToks.mapM ratRow?, HostEng.segments obsToks with
+    | some values, [[res], stored] =>
+      match stored.mapM phtRow? with
+      | none => (st, "BADLINE rows")
+      | some stored =>
+        let (rows, e) := readPestHostTable values
+        -- the rule itself: a row with fewer than 3 values or a susceptibility outside [0,1] is rejected
+        let mustReject := values.any fun r => r.length < 3 || decide (r.getD 0 0 < 0) || decide (r.getD 0 0 > 1)
+        if mustReject && res = "ok" then (st, "PROPFAIL C16 pest_host_table_accepted_bad_row")
+        else if !mustReject && res ≠ "ok" then (st, s!"PROPFAIL C16 pest_host_table_rejected_good_rows {res}")
+        else if res ≠ (match e with | none => "ok" | some k => errTok k) then (st, "MISMATCH mh.readpht result")
+        else if rows != stored then (st, "MISMATCH mh.readpht rows")
+        else ({ st with pht := some (PestHostTable.ofConfig rows) }, "ok")
+    | _, _ => (st, "BADLINE")
+  | "mh.mkpht", [n, rate, lag] =>
+    match parseInt? n, parseRat? rate, parseInt? lag, HostEng.segments obsToks with
+    | some n, some rate, some lag, [[_], stored] =>
+      match stored.mapM phtRow? with
+      | none => (st, "BADLINE rows")
+      | some stored =>
+        let rows := createPestHostTableFromParameters n rate lag
+        if rows != stored then (st, "MISMATCH mh.mkpht rows")
+        else ({ st with pht := some (PestHostTable.ofConfig rows) }, "ok")
+    | _, _, _, _ => (st, "BADLINE")
+  | "mh.readcomp", rowToks =>
+    match rowToks.mapM ratRow?, HostEng.segments obsToks with
+    | some values, [[res, complete], stored] =>
+      match stored.mapM compRow? with
+      | none => (st, "BADLINE rows")
+      | some stored =>
+        let (rows, e) := readCompetencyTable values
+        let mustReject := values.any (fun r => r.length < 2) || values.any (fun r => r.length != (values.headD []).length)
+        if mustReject && res = "ok" then (st, "PROPFAIL C16 competency_table_accepted_bad_rows")
+        else if !mustReject && res ≠ "ok" then (st, s!"PROPFAIL C16 competency_table_rejected_good_rows {res}")
+        else if res ≠ (match e with | none => "ok" | some k => errTok k) then (st, "MISMATCH mh.readcomp result")
+        else if rows != stored then (st, "MISMATCH mh.readcomp rows")
+        else if (complete = "1") != competencyTableIsComplete stored then (st, "MISMATCH mh.readcomp complete")
+        else ({ st with comp := some (CompetencyTable.ofConfig rows) }, "ok")
+    | _, _ => (st, "BADLINE")
+  | "mh.state", [] =>
+    match obs? obsToks with
+    | some o => if o.hosts.length = st.nHosts && st.ps.length = st.nHosts then finish st o "ok" else (st, "BADLINE hosts")
+    | none => (st, "BADLINE")
+  -- single-host differential on the implementation itself
+  | "mh.single", [a, u, n, w] =>
+    match parseNat? a, parseRat? u, parseInt? n, HostEng.segments obsToks with
+    | some a, some u, some n, [[mret, mcalls, bret, bcalls], mcells, bcells] =>
+      match mcells.mapM HostEng.cell?, bcells.mapM HostEng.cell?, st.hosts, st.ps with
+      | some mcells, some bcells, [pre], [p] =>
+        let env := envOf st n w
+        let c := pre[a]!
+        match env.cellEnv 0 with
+        | .error k =>
+          -- outside the theorem's domain (the table has no entry for the host): the wrapper asks for
+          -- the suitability first and throws, the bare host only when it has a susceptible individual
+          let bareExp := if c.s ≤ 0 then "0" else errTok k
+          (st, if mret = errTok k && bret = bareExp && mcells == pre && bcells == pre then "ok"
+               else s!"MISMATCH mh.single no-table-entry model multi={errTok k} bare={bareExp}")
+        | .ok e =>
+          let inDomain := decide (0 ≤ c.s)
+          if inDomain && (mret ≠ bret || mcells != bcells) then
+            (st, s!"PROPFAIL C16 single_host_result multi={mret} bare={bret} multi_cells={showCells mcells} bare_cells={showCells bcells}")
+          else if inDomain && mcalls ≠ bcalls then
+            if f19Region c e then (st, s!"KNOWN C16 F19 s={c.s} suitability=0 multi_calls={mcalls} bare_calls={bcalls}")
+            else (st, s!"PROPFAIL C16 single_host_stream multi_calls={mcalls} bare_calls={bcalls} s={c.s}")
+          else
+            -- the bare host against its own model
+            let model := c.disperserTo p.mt e p.sto p.pEst u
+            let exp := match model with
+              | .ok (c', k, used) => (toString k, toString used, pre.set a c')
+              | .error k => (errTok k, "0", pre)
+            (st, if exp.1 = bret && (exp.2.1 = bcalls || (errOf? bret).isSome) && exp.2.2 == bcells then "ok"
+                 else s!"MISMATCH mh.single bare model={exp.1} calls={exp.2.1}")
+      | _, _, _, _ => (st, "BADLINE")
+    | _, _, _, _ => (st, "BADLINE")
+  | _, _ =>
+    match obs? obsToks with
+    | none => (st, "BADLINE obs")
+    | some o =>
+      if o.hosts.length ≠ st.hosts.length then (st, "BADLINE hostcount") else
+      match cmd, inp with
+      | "mh.dispto", [a, v, u, n, w] =>
+        match parseNat? a, parseRat? v, parseRat? u, parseInt? n, o.ret with
+        | some a, some v, some u, some n, [ret, calls, pickTok] =>
+          let env := envOf st n w
+          let pre := cellsAt st.hosts a
+          let post := cellsAt o.hosts a
+          let pick := (parseNat? pickTok).getD 0
+          let model := multiDisperserTo st.cfg st.ps env pre pick u
+          let ws := weightsInDomain env pre
+          if !(othersSame st.hosts o.hosts a) then finish st o "PROPFAIL C16 at_most_one_host another_cell_changed"
+          else if (errOf? ret).isSome then
+            match ws with
+            | some l =>
+              if sumR l > 1 then
+                finish st o (if ret = "err:invalid_argument" then (if post == pre then "ok" else "MISMATCH mh.dispto state changed by a rejected call")
+                             else s!"PROPFAIL C16 suitability_over_one wrong_error {ret}")
+              else finish st o s!"PROPFAIL C16 landing_rejected_in_domain {ret} total={sumR l}"
+            | none => finish st o (if ret = exceptTok (fun _ => "ok") model then "ok" else s!"MISMATCH mh.dispto model={exceptTok (fun _ => "ok") model}")
+          else
+            match parseInt? ret with
+            | none => (st, "BADLINE")
+            | some res =>
+              if !(atMostOneSpec st.ps pre post res) then
+                finish st o s!"PROPFAIL C16 at_most_one_host ret={res} pre={showCells pre} post={showCells post}"
+              else
+                let specFail : Option String :=
+                  match ws with
+                  | none => none
+                  | some l =>
+                    if sumR l > 1 then some s!"PROPFAIL C16 suitability_over_one not_rejected total={sumR l} ret={res}"
+                    else if pre.length ≥ 2 && decide (sumR l > 0) && !(validPickB l v pick) then some s!"MISMATCH mh.dispto pick={pickTok} not possible for the weights"
+                    else if !(multiEstablishSpec st.cfg st.ps l pre pick u res) then
+                      some s!"PROPFAIL C16 establish_event ret={res} total={sumR l} pick={pick} u={u}"
+                    else none
+                match specFail with
+                | some f => finish st o f
+                | none =>
+                  match model with
+                  | .error e => finish st o s!"MISMATCH mh.dispto model={errTok e}"
+                  | .ok (cells', k, used) =>
+                    if k ≠ res then finish st o s!"MISMATCH mh.dispto ret model={k}"
+                    else if cells' != post then finish st o s!"MISMATCH mh.dispto cells model={showCells cells'}"
+                    else if toString used ≠ calls then finish st o s!"MISMATCH mh.dispto generator calls model={used} observed={calls}"
+                    else finish st o "ok"
+        | _, _, _, _, _ => (st, "BADLINE")
+      | "mh.pestsfrom", [a, count] =>
+        match parseNat? a, parseInt? count, o.ret with
+        | some a, some count, [ret] =>
+          let pre := cellsAt st.hosts a
+          let post := cellsAt o.hosts a
+          let avail := pre.map (·.i)
+          let d := List.zipWith (fun (x y : Cell) => x.i - y.i) pre post
+          if !(othersSame st.hosts o.hosts a) then finish st o "PROPFAIL C16 split_bounded another_cell_changed"
+          else match parseInt? ret with
+            | none => finish st o (if avail.all (fun x => decide (0 ≤ x)) then s!"PROPFAIL C16 split_rejected {ret}" else "ok")
+            | some res =>
+              if avail.all (fun x => decide (0 ≤ x)) && !(splitSpec avail count d res && pestsFromStateSpec pre post d) then
+                finish st o s!"PROPFAIL C16 split_bounded pests_from count={count} ret={res} available={avail} taken={d}"
+              else if !(validSplitB avail count d) then finish st o s!"MISMATCH mh.pestsfrom draw not valid taken={d}"
+              else
+                let (cells', k) := multiPestsFrom pre d
+                finish st o (if k ≠ res then s!"MISMATCH mh.pestsfrom ret model={k}" else if cells' != post then "MISMATCH mh.pestsfrom cells" else "ok")
+        | _, _, _ => (st, "BADLINE")
+      | "mh.peststo", [a, count] =>
+        match parseNat? a, parseInt? count, o.ret with
+        | some a, some count, [ret] =>
+          let pre := cellsAt st.hosts a
+          let post := cellsAt o.hosts a
+          let avail := pre.map (·.s)
+          let d := List.zipWith (fun (x y : Cell) => x.s - y.s) pre post
+          if !(othersSame st.hosts o.hosts a) then finish st o "PROPFAIL C16 split_bounded another_cell_changed"
+          else match parseInt? ret with
+            | none => finish st o (if avail.all (fun x => decide (0 ≤ x)) then s!"PROPFAIL C16 split_rejected {ret}" else "ok")
+            | some res =>
+              if avail.all (fun x => decide (0 ≤ x)) && !(splitSpec avail count d res && pestsToStateSpec pre post d) then
+                finish st o s!"PROPFAIL C16 split_bounded pests_to count={count} ret={res} available={avail} taken={d}"
+              else if !(validSplitB avail count d) then finish st o s!"MISMATCH mh.peststo draw not valid taken={d}"
+              else
+                let (cells', k) := multiPestsTo pre d
+                finish st o (if k ≠ res then s!"MISMATCH mh.peststo ret model={k}" else if cells' != post then "MISMATCH mh.peststo cells" else "ok")
+        | _, _, _ => (st, "BADLINE")
+      | "mh.dispfrom", [a, w] =>
+        match parseNat? a, o.ret with
+        | some a, [ret] =>
+          let env := envOf st 1 w
+          let pre := cellsAt st.hosts a
+          let model := multiDispersersFrom env st.ps pre
+          let spec := dispersersSpec env st.ps pre
+          if o.hosts != st.hosts then finish st o "MISMATCH mh.dispfrom generation changed the hosts"
+          else
+            match spec with
+            | some v =>
+              if ret ≠ toString v then finish st o s!"PROPFAIL C16 competency_scaling ret={ret} expected={v}"
+              else finish st o (if exceptTok toString model = ret then "ok" else s!"MISMATCH mh.dispfrom model={exceptTok toString model}")
+            | none =>
+              if (errOf? ret).isNone then finish st o s!"PROPFAIL C16 competency_lookup_not_rejected ret={ret}"
+              else finish st o (if exceptTok toString model = ret then "ok" else s!"MISMATCH mh.dispfrom model={exceptTok toString model}")
+        | _, _ => (st, "BADLINE")
+      | "mh.sums", [a] =>
+        match parseNat? a, o.ret with
+        | some a, [inf, tot] =>
+          match parseInt? inf, parseInt? tot with
+          | some inf, some tot =>
+            let pre := cellsAt st.hosts a
+            if o.hosts != st.hosts then finish st o "MISMATCH mh.sums changed the hosts"
+            else if !(sumsSpec pre inf tot) then finish st o s!"PROPFAIL C16 sums infected={inf} total={tot} cells={showCells pre}"
+            else finish st o (if multiInfectedAt pre = inf && multiTotalHostsAt pre = tot then "ok" else "MISMATCH mh.sums")
+          | _, _ => (st, "BADLINE")
+        | _, _ => (st, "BADLINE")
+      | "mh.competency", [a] =>
+        match parseNat? a with
+        | some a =>
+          let pre := cellsAt st.hosts a
+          let presence := hostPresence pre
+          match st.comp with
+          | none => finish st o (if o.ret = ["none"] then "ok" else "BADLINE")
+          | some t =>
+            if o.ret.length ≠ pre.length then (st, "BADLINE") else
+            let bad : Option String := (List.range pre.length).findSome? fun h =>
+              let obs := o.ret[h]!
+              let spec := competencySpec t presence h
+              let model := exceptTok (fun (q : Rat) => toString q) (t.competencyAt presence h)
+              let obsN := match parseRat? obs with | some q => toString q | none => obs
+              match spec with
+              | some v =>
+                if obsN ≠ toString v then some s!"PROPFAIL C16 competency_lookup host={h} observed={obs} expected={v}"
+                else if model ≠ obsN then some s!"MISMATCH mh.competency host={h} model={model}" else none
+              | none =>
+                if (errOf? obs).isNone then some s!"PROPFAIL C16 competency_lookup_not_rejected host={h} observed={obs}"
+                else if model ≠ obs then some s!"MISMATCH mh.competency host={h} model={model}" else none
+            finish st o (bad.getD "ok")
+        | none => (st, "BADLINE")
+      | "mh.mortality", [a] =>
+        match parseNat? a, o.ret with
+        | some a, [ret] =>
+          let env := envOf st 1 "none"
+          let pre := cellsAt st.hosts a
+          let post := cellsAt o.hosts a
+          let model := multiApplyMortality env pre
+          if (errOf? ret).isSome then
+            finish st o (match model with
+              | .error e => if errTok e = ret then "ok" else s!"MISMATCH mh.mortality model={errTok e}"
+              | .ok _ => s!"MISMATCH mh.mortality model=ok observed={ret}")
+          else if !(othersSame st.hosts o.hosts a) then finish st o "PROPFAIL C16 per_host_mortality another_cell_changed"
+          else
+            -- each host with its own rate and lag, independent of the others
+            let bad : Option String := (List.range pre.length).findSome? fun h =>
+              match st.pht with
+              | none => some "MISMATCH mh.mortality no table"
+              | some t =>
+                match t.rate[h]?, t.lag[h]? with
+                | some rate, some lag =>
+                  match (pre[h]!).applyMortality rate lag with
+                  | .ok c' => if c' == post[h]! then none else
+                      some s!"PROPFAIL C16 per_host_mortality host={h} rate={rate} lag={lag} pre={HostEng.showCell (pre[h]!)} post={HostEng.showCell (post[h]!)}"
+                  | .error _ => some s!"MISMATCH mh.mortality host={h} model throws"
+                | _, _ => some s!"MISMATCH mh.mortality host={h} has no table entry"
+            match bad with
+            | some b => finish st o b
+            | none => finish st o (match model with
+                | .ok cells' => if cells' == post then "ok" else "MISMATCH mh.mortality cells"
+                | .error e => s!"MISMATCH mh.mortality model={errTok e}")
+        | _, _ => (st, "BADLINE")
+      | "mh.move", [a, b, cnt] =>
+        match parseNat? a, parseNat? b, parseInt? cnt, o.ret with
+        | some a, some b, some cnt, [ret] =>
+          if a == b then (st, "BADLINE same cell") else
+          let srcs := cellsAt st.hosts a
+          let dsts := cellsAt st.hosts b
+          let srcs' := cellsAt o.hosts a
+          let dsts' := cellsAt o.hosts b
+          match srcs, dsts, srcs', dsts' with
+          | src :: _, dst :: _, src' :: _, _ :: _ =>
+            let d : ClassDraw := { i := src.i - src'.i, s := src.s - src'.s, e := src.te - src'.te, r := src.r - src'.r }
+            let drawE := subL src.e src'.e
+            let drawM := subL src.mort src'.mort
+            if !(validClassDrawB src cnt d) then finish st o s!"MISMATCH mh.move class-draw-invalid i={d.i} s={d.s} e={d.e} r={d.r}"
+            else if d.e > 0 && !(validDrawB src.e d.e drawE) then finish st o "MISMATCH mh.move exposed-draw-invalid"
+            else if d.i > 0 && !(validDrawB src.mort d.i drawM) then finish st o "MISMATCH mh.move mortality-draw-invalid"
+            else
+              let (ms, md, moved) := multiMoveHosts srcs dsts cnt d drawE drawM
+              let _ := dst
+              if toString moved ≠ ret then finish st o s!"MISMATCH mh.move ret model={moved}"
+              else if ms != srcs' then finish st o s!"MISMATCH mh.move source model={showCells ms}"
+              else if md != dsts' then finish st o s!"MISMATCH mh.move target model={showCells md}"
+              else finish st o "ok"
+          | _, _, _, _ => (st, "BADLINE")
+        | _, _, _, _ => (st, "BADLINE")
+      | _, _ => (st, "BADLINE cmd")
 
 end Pops.Driver.MultiEng
